@@ -69,3 +69,48 @@ example : mainLoop [("a.vhd", .classifyError "x"), ("b.vhd", .checked false)] =
     some [.ret true (some "Error while processing a.vhd: x") false, .ret false none false] := by decide
 
 end Vsgm.C19
+
+-- >>> WP1 layer P: error shape of the translated classifier productions
+namespace Vsgm.C19
+open Vsgm.Prog
+
+/-- **productions, error shape**: a call of the interpreter returns a value or one of the enumerated outcomes:
+    the four Python exceptions of `PyErr`, AttributeError, ValueError, RecursionError, or the interpreter's own
+    `outOfFuel` / `unmodelled` (which are not Python outcomes and are reported as such by `./check PROG`) -/
+theorem prog_result_enumerated (S : Sys) (n f : Nat) (args : List Val) (st : State) :
+    (∃ v, ((run S n).call f args st).1 = .ok v)
+    ∨ ((run S n).call f args st).1 = .error (.py .indexError)
+    ∨ ((run S n).call f args st).1 = .error (.py .typeError)
+    ∨ ((run S n).call f args st).1 = .error (.py .unboundLocal)
+    ∨ ((run S n).call f args st).1 = .error (.py .classifyError)
+    ∨ ((run S n).call f args st).1 = .error .attributeError
+    ∨ ((run S n).call f args st).1 = .error .valueError
+    ∨ ((run S n).call f args st).1 = .error .recursionError
+    ∨ ((run S n).call f args st).1 = .error .outOfFuel
+    ∨ ((run S n).call f args st).1 = .error .unmodelled := by
+  cases h : ((run S n).call f args st).1 with
+  | ok v => exact Or.inl ⟨v, rfl⟩
+  | error e =>
+    right
+    cases e with
+    | py p => cases p <;> simp
+    | attributeError => simp
+    | valueError => simp
+    | recursionError => simp
+    | outOfFuel => simp
+    | unmodelled => simp
+
+/-- the only functions of the GENERATED table that contain a `raise` statement are `utils.print_error_message`
+    and `utils.print_missing_error_message` (positions 51, 52 of `progTable`): every ClassifyError of the
+    productions is built there; IndexError / TypeError / UnboundLocalError come out of the leaf operations
+    (`lObjects[i]`, `None + 1`, unassigned locals) and are found by the search (known findings of C19) -/
+theorem progTable_raise_sites :
+    failing Chk.noRaise (Gen.Prog.progTable.map (·.2)) = [51, 52] := by decide +kernel
+
+/-- a run that ends in IndexError stops there: the state is returned as it was when the exception was raised
+    (no token inserted or deleted), cf. `C04.prog_call_length` -/
+example : (((run C04.demoSys 6).call 0 [.toks, .int 5, .cls 9] (initState C04.demoSys C04.demoToks)).2.toks.size) = 2 := by
+  decide +kernel
+
+end Vsgm.C19
+-- <<< WP1 layer P
